@@ -124,7 +124,8 @@ def main():
                 txt = open(readme, errors="replace").read()
                 mm = re.search(r"(?is)(needs?[^\n]*manifest[^\n]*\n(?:.*\n){0,6})", txt)
                 m["needs_to_manifest"] = (mm.group(1) if mm else txt[:600]).strip()[:900]
-            out = os.path.join(VERIF, "seeded", "%s_%s" % (pid, n))
+            tag = os.environ.get("SEED_TAG", "")
+            out = os.path.join(VERIF, "seeded", "%s_%s%s" % (pid, tag + "_" if tag else "", n))
             if m["status"] == "confirmed":
                 shutil.rmtree(out, ignore_errors=True); os.makedirs(out)
                 for f in os.listdir(os.path.join(seeds, pid, n)):
@@ -133,7 +134,7 @@ def main():
                 json.dump(m, open(os.path.join(out, "meta.json"), "w"), indent=1)
             else:
                 os.makedirs(os.path.join(VERIF, "build", "seed_rejects"), exist_ok=True)
-                json.dump(m, open(os.path.join(VERIF, "build", "seed_rejects", "%s_%s.json" % (pid, n)), "w"), indent=1)
+                json.dump(m, open(os.path.join(VERIF, "build", "seed_rejects", "%s_%s%s.json" % (pid, os.environ.get("SEED_TAG", ""), n)), "w"), indent=1)
             print("%s seed %s: %s; demo %s->%s; tests %s; detected by %s" % (pid, n, m["status"], [r.get("rc") for r in m["ran"] if r["step"].startswith("demo without")], [r.get("rc") for r in m["ran"] if r["step"] == "demo with the change"],
                                                                               m.get("tests_pass_with_change"), m.get("detected_by")), flush=True)
 
